@@ -131,7 +131,7 @@ func (w *Writer) initEmpty() error {
 }
 
 func (w *Writer) recoverTail() error {
-	// We need to track the last two commit frames
+	// We need to track all the commit frames we find, see below.
 	type commitInfo struct {
 		fh         frameHeader
 		offset     int64
@@ -139,7 +139,7 @@ func (w *Writer) recoverTail() error {
 		offsetsLen int
 		indexStart uint64
 	}
-	var prevCommit, finalCommit *commitInfo
+	var commits []commitInfo
 	// indexStart of the last index frame seen. It only counts if a valid commit
 	// frame follows it.
 	var lastIndexStart uint64
@@ -160,17 +160,17 @@ func (w *Writer) recoverTail() error {
 
 		case FrameCommit:
 			// The payload is not the length field in this case!
-			prevCommit = finalCommit
-			finalCommit = &commitInfo{
+			ci := commitInfo{
 				fh:         fh,
 				offset:     offset,
 				crcStart:   0,            // First commit includes the file header
 				offsetsLen: len(offsets), // Track how many entries were found up to this commit point.
 				indexStart: lastIndexStart,
 			}
-			if prevCommit != nil {
-				finalCommit.crcStart = prevCommit.offset + frameHeaderLen
+			if len(commits) > 0 {
+				ci.crcStart = commits[len(commits)-1].offset + frameHeaderLen
 			}
+			commits = append(commits, ci)
 		}
 		return true, nil
 	})
@@ -178,84 +178,49 @@ func (w *Writer) recoverTail() error {
 		return err
 	}
 
-	if finalCommit == nil {
-		// There were no commit frames found at all. This segment file is
-		// effectively empty. Init it that way ready for appending. This overwrites
-		// the file header so it doesn't matter if it was valid or not.
-		return w.initEmpty()
-	}
+	// Work backwards from the last commit frame we found until we find one whose
+	// batch made it to disk completely. Anything after it was never acknowledged:
+	// it is either the torn remains of the batch that was in flight when we
+	// crashed or left over from earlier torn batches that were rewound and only
+	// partly overwritten since. In particular we can NOT assume that a commit
+	// frame is good just because other frames (even other commit frames) follow
+	// it, those may be such left-overs, so every commit we consider accepting is
+	// verified.
+	for i := len(commits) - 1; i >= 0; i-- {
+		c := commits[i]
 
-	// Assume that the final commit is good for now and set the writer state
-	w.writer.writeOffset = uint32(finalCommit.offset + frameHeaderLen)
-	// The segment is only sealed if the index frame was covered by that commit.
-	w.writer.indexStart = finalCommit.indexStart
+		// We know bufLen can't be bigger than the whole segment file because none
+		// of the values were read from the data just from the offsets we moved
+		// through.
+		batchBuf := make([]byte, c.offset-c.crcStart)
+		if _, err := w.wf.ReadAt(batchBuf, c.crcStart); err != nil {
+			return fmt.Errorf("failed to read last committed batch for CRC validation: %w", err)
+		}
+		if crc32.Checksum(batchBuf, castagnoliTable) != c.fh.crc {
+			// This commit was incomplete, rewind to the one before.
+			continue
+		}
 
-	// Just store what we have for now to ensure the defer doesn't panic we'll
-	// probably update this below.
-	w.offsets.Store(offsets)
-
-	// Whichever path we take, fix up the commitIdx before we leave
-	defer func() {
-		ofs := w.getOffsets()
-		if len(ofs) > 0 {
+		// This is the last good commit. Continue appending after it. The segment
+		// is only sealed if the index frame was covered by it.
+		w.writer.writeOffset = uint32(c.offset + frameHeaderLen)
+		w.writer.indexStart = c.indexStart
+		offsets = offsets[:c.offsetsLen]
+		w.offsets.Store(offsets)
+		if len(offsets) > 0 {
 			// Non atomic is OK because this file is not visible to any other threads
 			// yet.
-			w.commitIdx = w.info.BaseIndex + uint64(len(ofs)) - 1
+			w.commitIdx = w.info.BaseIndex + uint64(len(offsets)) - 1
 		}
-	}()
-
-	if finalCommit.offsetsLen < len(offsets) {
-		// Some entries were found after the last commit. Those must be a partial
-		// write that was uncommitted so can be ignored. Just truncate the extra
-		// entries from index and reset the write cursor to continue appending
-		// after the last commit.
-		//
-		// Note that we can NOT assume the last commit was completed and
-		// acknowledged just because entry frames follow it: they may be left over
-		// from an earlier torn batch that was rewound and is now being overwritten
-		// by the batch this commit frame belongs to. So we still verify it below.
-		offsets = offsets[:finalCommit.offsetsLen]
-		w.offsets.Store(offsets)
-	}
-
-	// Last frame was a commit frame! Let's check that all the data written in
-	// that commit frame made it to disk.
-	// Verify the length first
-	bufLen := finalCommit.offset - finalCommit.crcStart
-	// We know bufLen can't be bigger than the whole segment file because none of
-	// the values above were read from the data just from the offsets we moved
-	// through.
-	batchBuf := make([]byte, bufLen)
-
-	if _, err := w.wf.ReadAt(batchBuf, finalCommit.crcStart); err != nil {
-		return fmt.Errorf("failed to read last committed batch for CRC validation: %w", err)
-	}
-
-	gotCrc := crc32.Checksum(batchBuf, castagnoliTable)
-	if gotCrc == finalCommit.fh.crc {
-		// All is good. We already setup the state we need for writer other than
-		// offsets.
-		w.offsets.Store(offsets)
 
 		// Since at least one commit was found, the header better be valid!
 		return validateFileHeader(*readInfo, w.info)
 	}
 
-	// Last commit was incomplete rewind back to the previous one or start of file
-	w.writer.indexStart = 0
-	if prevCommit == nil {
-		// Init wil re-write the file header so it doesn't matter if it was corrupt
-		// or not!
-		return w.initEmpty()
-	}
-
-	w.writer.writeOffset = uint32(prevCommit.offset + frameHeaderLen)
-	w.writer.indexStart = prevCommit.indexStart
-	offsets = offsets[:prevCommit.offsetsLen]
-	w.offsets.Store(offsets)
-
-	// Since at least one commit was found, the header better be valid!
-	return validateFileHeader(*readInfo, w.info)
+	// There were no (valid) commit frames found at all. This segment file is
+	// effectively empty. Init it that way ready for appending. This overwrites
+	// the file header so it doesn't matter if it was valid or not.
+	return w.initEmpty()
 }
 
 // Close implements io.Closer
